@@ -212,9 +212,9 @@ func (c *Ctx) foundPtr(v ssa.Value, id ssa.Value, at *ssa.BasicBlock, depth int)
 		okAll := true
 		n := 0
 		eng.EachInstr(g, func(in ssa.Instruction) {
-			if ret, ok := in.(*ssa.Return); ok && len(ret.Results) == 1 {
+			if ret, ok := in.(*ssa.Return); ok && len(eng.ReturnResults(ret)) == 1 {
 				n++
-				if !c.foundPtr(ret.Results[0], gid, ret.Block(), depth+1) {
+				if !c.foundPtr(eng.ReturnResults(ret)[0], gid, ret.Block(), depth+1) {
 					okAll = false
 				}
 			}
@@ -270,10 +270,10 @@ func (c *Ctx) foundIdx(v ssa.Value, id ssa.Value) bool {
 	okAll, nFound := true, 0
 	eng.EachInstr(g, func(in ssa.Instruction) {
 		ret, ok := in.(*ssa.Return)
-		if !ok || len(ret.Results) != 1 {
+		if !ok || len(eng.ReturnResults(ret)) != 1 {
 			return
 		}
-		if k, isC := eng.ConstInt(ret.Results[0]); isC && k < 0 {
+		if k, isC := eng.ConstInt(eng.ReturnResults(ret)[0]); isC && k < 0 {
 			return
 		}
 		if underIdEquality(ret.Block(), gid) {
@@ -441,7 +441,7 @@ func (c *Ctx) checkMutator(sm *storeModel, fn *ssa.Function, id ssa.Value, res *
 	an := sm.an
 	eng.EachInstr(fn, func(in ssa.Instruction) {
 		ret, ok := in.(*ssa.Return)
-		if !ok || len(ret.Results) == 0 {
+		if !ok || len(eng.ReturnResults(ret)) == 0 {
 			return
 		}
 		if eng.IsRecoverBlock(ret.Block()) && !eng.DefersMayRecover(fn) {
